@@ -10,7 +10,7 @@ package db
 //@ ghost var writesOutsideTx int
 
 // the row written for a certificate carries the header's identity, verdict, range and roots, field by field
-//@ func convertCertificateToCertificateInfo
+//@ func convertCertificateToCertificateInfo (c)
 //@   props C13 C02
 //@   requires c != nil
 //@   modifies nothing
@@ -28,7 +28,7 @@ package db
 //@   ensures result != errvar("db.ErrNotFound") && ((result != nil && !isErr(result, sql.ErrNoRows)) ==> !isErr(result, errvar("db.ErrNotFound")))
 //@   ensures certLookupNoRows == (result != nil && isErr(result, sql.ErrNoRows))
 //@   ensures result == nil ==> cast(dst, *certificateInfo).Height == caller.height
-//@ func getCertificateByHeight
+//@ func getCertificateByHeight (db, height)
 //@   props C13 C02
 //@   sqltext "SELECT * FROM certificate_info WHERE height = $1;"
 //@   requires db != nil
@@ -56,7 +56,7 @@ package db
 
 // replacing the row of a height: with history on, the old row is copied to the history table first; then the old row is
 // deleted by its certificate id; both through the querier given (the caller's transaction); the first failure stops it
-//@ func (a *AggSenderSQLStorage) moveCertificateToHistoryOrDelete
+//@ func (a *AggSenderSQLStorage) moveCertificateToHistoryOrDelete (a, tx, certificate)
 //@   props C13 C02
 //@   sqltext "INSERT INTO certificate_info_history SELECT * FROM certificate_info WHERE height = $1;"
 //@   requires a != nil && a.logger != nil && tx != nil && certificate != nil
@@ -79,7 +79,7 @@ package db
 //@   ensures writesOutsideTx == old(writesOutsideTx) + ite(db == lastTx && txState(lastTx) == 0, 0, 1)
 //@   ensures stmtFail == old(stmtFail) + ite(result == nil, 0, 1)
 
-//@ func (a *AggSenderSQLStorage) SaveLastSentCertificate
+//@ func (a *AggSenderSQLStorage) SaveLastSentCertificate (a, ctx, certificate)
 //@   props C13 C02
 //@   requires a != nil && a.db != nil && a.logger != nil
 //@   requires lastTx < heapTop
@@ -96,12 +96,12 @@ package db
 //@   ensures[committed-only-if-every-statement-succeeded] result == nil ==> stmtFail == old(stmtFail)
 
 // ---- the certificate store's other statements (C02, C13): assumed semantics (A5), texts pinned
-//@ func (a *AggSenderSQLStorage) GetLastSentCertificate
+//@ func (a *AggSenderSQLStorage) GetLastSentCertificate (a)
 //@   props C02 C13
 //@   trusted
 //@   modifies nothing
 //@   sqltext "SELECT * FROM certificate_info ORDER BY height DESC LIMIT 1;"
-//@ func (a *AggSenderSQLStorage) GetLastSentCertificateHeaderWithProofIfInError
+//@ func (a *AggSenderSQLStorage) GetLastSentCertificateHeaderWithProofIfInError (a, ctx)
 //@   props C02 C13
 //@   trusted
 //@   modifies nothing
@@ -121,7 +121,7 @@ package db
 //@   ensures stmtFail == old(stmtFail) + ite(result1 == nil, 0, 1)
 //@   ensures result1 == nil ==> statusUpdates == old(statusUpdates) + 1 && lastStatusUpdateStatus == unbox(args[0], agglayertypes.CertificateStatus) && lastStatusUpdateAt == unbox(args[1], uint32)
 //@   ensures result1 != nil ==> statusUpdates == old(statusUpdates) && lastStatusUpdateStatus == old(lastStatusUpdateStatus) && lastStatusUpdateAt == old(lastStatusUpdateAt)
-//@ func (a *AggSenderSQLStorage) UpdateCertificateStatus
+//@ func (a *AggSenderSQLStorage) UpdateCertificateStatus (a, ctx, certificateID, newStatus, updatedAt)
 //@   props C02 C13
 //@   sqltext "UPDATE certificate_info SET status = $1, updated_at = $2 WHERE certificate_id = $3;"
 //@   requires a != nil && a.db != nil && a.logger != nil
@@ -131,7 +131,7 @@ package db
 //@   ensures[all-or-nothing] lastTx != old(lastTx) ==> ((result == nil ==> txState(lastTx) == 1) && (result != nil ==> txState(lastTx) == 2))
 //@   ensures[the-statement-goes-through-its-transaction] writesOutsideTx == old(writesOutsideTx)
 //@   ensures[at-most-one-statement] statusUpdates <= old(statusUpdates) + 1
-//@ func deleteCertificate
+//@ func deleteCertificate (tx, certificateID)
 //@   props C02 C13
 //@   sqltext "DELETE FROM certificate_info WHERE certificate_id = $1;"
 //@   requires tx != nil
@@ -148,7 +148,7 @@ package db
 
 // the query behind the status poll (C13, C02): built from constant pieces around one placeholder per status given
 // (string building is outside the subset: the pieces are pinned, the statement's meaning is assumed, A5)
-//@ func (a *AggSenderSQLStorage) GetCertificateHeadersByStatus
+//@ func (a *AggSenderSQLStorage) GetCertificateHeadersByStatus (a, statuses)
 //@   props C02 C13
 //@   trusted
 //@   modifies nothing
